@@ -754,5 +754,5 @@ def lean_theorem(P, state, gen_ns):
     outs = output_cells(P)
     exp = ",\n     ".join(lean_of(state[c]) for c in outs)
     return ("theorem %s {K : Type} [Field K] (c c3 : K) (fn : Fns K) (%s : K) :\n"
-            "    %s.%s_all c c3 fn %s =\n    [%s] := by\n  c17_eager\n\n"
-            % (P.name, " ".join(ins), gen_ns, P.name, " ".join(ins), exp))
+            "    %s_all c c3 fn %s =\n    [%s] := by\n  c17_eager\n\n"
+            % (P.name, " ".join(ins), P.name, " ".join(ins), exp))
